@@ -230,7 +230,7 @@ NoSilentLoss ==
 \* without a sink error is exact, a failed run (it returned early: later reports find a dead queue) never
 \* counts more drops than happened
 FailedRunStillCounts ==
-    (apc = "done" /\ Mode # "discard" /\ Bug \notin {"nocount", "tickresets"}) =>
+    (apc = "done" /\ Mode # "discard") =>
         IF runerr THEN result <= Cardinality(lost) ELSE result = Cardinality(lost)
 \* the discard aggregator writes nothing, counts nothing, and its Report is always possible
 DiscardIsInert == Mode = "discard" => /\ queue = <<>> /\ buf = <<>> /\ disk = <<>> /\ dropped = 0
